@@ -959,7 +959,7 @@ impl Check for C20Check {
         let mut sch = rng.fork("schedule");
         let n = cfg.usize(2, 4);
         let n_gates = if cfg.chance(1, 2) { cfg.usize(1, 2) } else { 0 };
-        let interval_ms = *cfg.pick(&[1i64, 10, 10, 100]);
+        let interval_ms = *cfg.pick(&[1i64, 10, 10, 100, 0]);
         let faulting = if cfg.chance(2, 5) { Some(cfg.usize(0, n - 1)) } else { None };
         // minority: the fault is a panic inside the cycle (open finding: poisons the shared lock)
         let panic_kind = cfg.chance(1, 12);
@@ -1073,7 +1073,7 @@ impl Check for C20Check {
         if n == 0 {
             return Ok(());
         }
-        let interval_ms = case["interval_ms"].as_i64().unwrap_or(10).max(1);
+        let interval_ms = case["interval_ms"].as_i64().unwrap_or(10).max(0);
         let mut resources = vec![];
         for (i, r) in rs.iter().enumerate() {
             let src = source_for(i, n, r);
